@@ -30,6 +30,7 @@ Alpha2 == <<"a", "b">>
 Alpha3 == <<" ", "a", "b">>
 Alpha3n == <<"\n", "a", "b">>
 Alpha4 == <<" ", "-", "a", "b">>
+Alpha4c == <<"-", "1", "a", "b">>
 Alpha6 == <<"\t", " ", "-", "1", "a", "b">>
 Alpha7 == <<"\t", " ", "-", "1", "=", "a", "b">>
 INF == 99
@@ -252,6 +253,15 @@ Sig(r, d) == IF r = Nil THEN "" ELSE
              ELSE IF r[1] = "bad" THEN "bad:" \o r[2][1]
              ELSE r[1]
 
+\* classification of disagreements only: shapes for which known findings are recorded
+Shape(r) ==
+  IF r[1] = "cat" /\ r[3][1] = "rep" /\ r[4][1] = "cls"
+  THEN (IF r[3][6] = INF /\ r[3][3][1] = "cls" /\ r[3][3][5] = 0 /\ r[4][5] = 1 THEN "unbounded-class-closure.negated-class" ELSE "")
+  ELSE IF r[1] = "cls" /\ Len(r[2]) = 4 /\ r[3] = Nil
+  THEN (IF r[2][2] # "" /\ r[2][4] # "" /\ Ord(r[2][1]) <= Ord(r[2][3]) /\ Ord(r[2][3]) <= Ord(r[2][2]) /\ Ord(r[2][4]) > Ord(r[2][2])
+        THEN "class-second-range-starts-inside-first-and-extends-it" ELSE "")
+  ELSE ""
+
 ----------------------------------------------------------------------------
 (* options: letters the API defines *)
 OptLetters == {"i", "m", "s", "x", "F", "H", "X"}
@@ -303,7 +313,14 @@ Atoms4 == {L1, L2, Dot, Eps}
 P1Chk == Depth1(AtomsChk, RepFormsChk)
 BadTops == {Bad(k, a) : k \in BadKinds, a \in {L1, Rep(L1, "*", 0, INF), Alt(L1, L2)}}
 
-Named(n) == CASE n = "AtomsQ" -> AtomsQ [] n = "AtomsAll" -> AtomsAll [] n = "AtomsMid" -> AtomsMid [] n = "AtomsSmall" -> AtomsSmall
+\* family C: every range class [x-y] / [^x-y] over the alphabet under an unbounded quantifier, followed by every such class
+\* (disjoint, shared end point, proper overlap, containment: the closure must give characters back), and classes of two ranges
+\* in either order (overlapping, adjacent, nested, unsorted)
+RangesOf == {<<AlphaSeq[p[1]], AlphaSeq[p[2]]>> : p \in {q \in (1..Len(AlphaSeq)) \X (1..Len(AlphaSeq)) : q[1] <= q[2]}}
+RangeCls == {Cls(rg, ng, Nil) : rg \in RangesOf, ng \in {0, 1}}
+TwoRangeCls == {Cls(r1 \o r2, ng, Nil) : r1 \in RangesOf, r2 \in RangesOf, ng \in {0, 1}}
+RepFormsC == {<<"*", 0, INF>>, <<"+", 1, INF>>, <<"n,", 1, INF>>}
+Named(n) == CASE n = "AtomsQ" -> AtomsQ [] n = "RangeCls" -> RangeCls [] n = "AtomsAll" -> AtomsAll [] n = "AtomsMid" -> AtomsMid [] n = "AtomsSmall" -> AtomsSmall
               [] n = "AtomsTiny" -> AtomsTiny [] n = "AtomsChk" -> AtomsChk [] n = "Atoms4" -> Atoms4 [] n = "BadCls" -> BadCls
               [] n = "P1Small" -> P1Small [] n = "P1Two" -> P1Two [] n = "P1Chk" -> P1Chk [] n = "Pairs" -> Pairs
               [] n = "QTiny" -> Reps(AtomsTiny, RepFormsSmall) [] n = "QTiny3" -> Reps(AtomsTiny, RepForms3)
@@ -340,7 +357,8 @@ GroupsChk == Ones(AtomsChk) \cup RepG(RepFormsChk, "AtomsChk") \cup CatL(Atoms4,
              \cup RepG(RepForms3, "PairsQ") \cup CatL(Reps({L1, L2}, {<<"*", 0, INF>>, <<"n,m", 1, 2>>}), "QPairs2")
 GroupsChk2 == GroupsChk \cup Ones(P1Chk) \cup RepG(RepFormsChk, "P1Chk") \cup CatL(P1Chk, "AtomsChk") \cup CatR(P1Chk, "Atoms4") \cup AltL(P1Chk, "Atoms4")
               \cup CatL(Reps(AtomsTiny, RepFormsSmall), "QPairs3")
-Groups == CASE Uni = "A" -> GroupsA [] Uni = "A2" -> GroupsA2 [] Uni = "B" -> GroupsB [] Uni = "B2" -> GroupsB2
+GroupsC == CatL(Reps(RangeCls, RepFormsC), "RangeCls") \cup Ones(TwoRangeCls)
+Groups == CASE Uni = "C" -> GroupsC [] Uni = "A" -> GroupsA [] Uni = "A2" -> GroupsA2 [] Uni = "B" -> GroupsB [] Uni = "B2" -> GroupsB2
             [] Uni = "chk" -> GroupsChk [] Uni = "chk2" -> GroupsChk2
 Universe == UNION {Members(g) : g \in Groups}
 
